@@ -678,6 +678,13 @@ def gen_c13(tier, seed):
         calls.append(call('make', gen.digits(r, n)))
         calls.append(call('make', gen.latin1(r, n), micro=False))
     calls.append(call('make', ['12', 'AB', 'cd']))
+    # the version search near the character-count-indicator range boundaries: one and two characters more than (v, e) holds - the stream
+    # must still end with a terminator / padding in a larger symbol (never be cut at the capacity)
+    for v in ((9, 10, 26, 27, 28, 39) if tier == 'quick' else range(1, 40)):
+        for e in (('L', 'H') if tier == 'quick' else QR_LEVELS):
+            for mode in ('numeric', 'alphanumeric', 'kanji', 'byte'):
+                for d in (1, 2):
+                    calls.append(call('make', gen.content_for_mode(r, mode, T.max_chars(v, e, mode) + d), error=e, boost_error=False, micro=False))
     return calls
 
 
